@@ -2058,6 +2058,7 @@ class Pair(SeqComponent):
                "rtp": [bytes.fromhex(o[5:]) for o in obs if o.startswith("drtp:")],
                "rtcp": [bytes.fromhex(o[6:]) for o in obs if o.startswith("drtcp:")]}
         ptr = {"data": 0, "rtp": 0, "rtcp": 0}
+        oversize_lost = None
         hi, seen = {}, {}          # per SSRC: newest extended index delivered to peer, indexes delivered
         tx_hi = {}                 # per SSRC: newest extended index the sender encrypted before this packet
         order = {o["i"]: n for n, o in enumerate(res["ops"])}
@@ -2093,6 +2094,9 @@ class Pair(SeqComponent):
                 f = dfacts[o["i"]]
                 if res["dr"][peer] is None or f["over"] or f["poisoned"]:
                     must = False
+                    if res["dr"][peer] is not None and both and not delivered and oversize_lost is None:
+                        # known finding C04-oversize-data-record-cut: reported at the end unless something else is wrong too
+                        oversize_lost = o["i"]
                 cut = f["rec"] is not None and f["dgrams"] and f["dgrams"][0] < f["rec"]
                 why = (f" of {f['n']} bytes" + (f" (DTLS record of {f['rec']} bytes" if f["rec"] is not None else " (no intact record header") +
                        f"; {s} handed datagram(s) of {f['dgrams']} bytes to its ICE transport for it" +
@@ -2121,6 +2125,11 @@ class Pair(SeqComponent):
             if ptr[kind] != len(got[kind]):
                 return (f"{peer} handed {len(got[kind]) - ptr[kind]} {kind} packet(s) to its receivers that {s} did not send in that form "
                         f"(first: {got[kind][ptr[kind]].hex()[:32]})")
+        if oversize_lost is not None:
+            f = dfacts[oversize_lost]
+            return (f"data message of {f['n']} bytes (op {oversize_lost}) was accepted by {s}'s _send_data without an exception, or follows "
+                    f"one whose DTLS record did not fit into one datagram, and was never handed to {peer}'s data receiver "
+                    f"[data record over {MAX_DATAGRAM} bytes]")
         # every op that was sent and neither held forever nor refused must have arrived (link sanity)
         if res["dr"][peer] is not None and res["dr"][peer] != got["data"]:
             return f"data receiver of {peer} got {res['dr'][peer]!r}, but _handle_data was called with {got['data']!r}"
@@ -2988,4 +2997,6 @@ def components(tier):
 
 
 def classify_finding(finding, comp_name, case, what):
+    if finding.get("id") == "C04-oversize-data-record-cut":
+        return what.endswith("[data record over %d bytes]" % MAX_DATAGRAM)
     return False
